@@ -89,6 +89,7 @@ type World struct {
 	Router      *rux.Router         // set by Program.Apply: the router nested requests go to
 	Subs        bool                // nested requests (OpSub) enabled
 	CancelEvery int                 // > 0: every n-th request arrives with an already cancelled context
+	Mounted     bool                // CheckRequest repeats every request behind http.StripPrefix("/pre/", router)
 	lent        [][]rux.HandlerFunc // handler slices handed to registration calls (see reuseLentSlices)
 	lateCopies  []*rux.Context      // copies kept by finished requests (their jobs go on reporting, see Handler)
 }
